@@ -197,3 +197,53 @@ package lnwallet
 //@        msg.NextLocalCommitHeight > remoteTailHeight
 //@   site call AtIndex: assert arg(1) == msg.RemoteCommitTailHeight - 1 && msg.RemoteCommitTailHeight != 0
 //@   site call bytes.Equal: assert arg(0) == sliceof(*retn(AtIndex, 0)) && arg(1) == sliceof(msg.LastRemoteCommitSecret)
+//@
+//@ func (lc *LightningChannel) restoreStateLogs
+//@   props C02
+//@   loop * havoc
+//@   loop 0 step incomingRemoteAddHeights[r.HtlcIndex] == pendingRemoteCommit.height
+//@   loop 1 step incomingRemoteAddHeights[r.HtlcIndex] == remoteCommitment.height
+//@   loop 2 step outgoingLocalAddHeights[l.HtlcIndex] == localCommitment.height
+//@   loop 3 step (typeis(logUpdate.UpdateMsg, *lnwire.UpdateFulfillHTLC) ==>
+//@          outgoingLocalAddHeights[dynptr(logUpdate.UpdateMsg, *lnwire.UpdateFulfillHTLC).ID] == localCommitment.height) &&
+//@        (typeis(logUpdate.UpdateMsg, *lnwire.UpdateFailHTLC) ==>
+//@          outgoingLocalAddHeights[dynptr(logUpdate.UpdateMsg, *lnwire.UpdateFailHTLC).ID] == localCommitment.height) &&
+//@        (typeis(logUpdate.UpdateMsg, *lnwire.UpdateFailMalformedHTLC) ==>
+//@          outgoingLocalAddHeights[dynptr(logUpdate.UpdateMsg, *lnwire.UpdateFailMalformedHTLC).ID] == localCommitment.height)
+//@   loop 4 step (typeis(logUpdate.UpdateMsg, *lnwire.UpdateFulfillHTLC) ==>
+//@          incomingRemoteAddHeights[dynptr(logUpdate.UpdateMsg, *lnwire.UpdateFulfillHTLC).ID] == remoteCommitment.height) &&
+//@        (typeis(logUpdate.UpdateMsg, *lnwire.UpdateFailHTLC) ==>
+//@          incomingRemoteAddHeights[dynptr(logUpdate.UpdateMsg, *lnwire.UpdateFailHTLC).ID] == remoteCommitment.height) &&
+//@        (typeis(logUpdate.UpdateMsg, *lnwire.UpdateFailMalformedHTLC) ==>
+//@          incomingRemoteAddHeights[dynptr(logUpdate.UpdateMsg, *lnwire.UpdateFailMalformedHTLC).ID] == remoteCommitment.height)
+//@   site call restoreHtlc nth 0: assert arg(0) == lc.updateLogs.Remote &&
+//@        arg(1).addCommitHeights.Local == localCommitment.height &&
+//@        arg(1).addCommitHeights.Remote == incomingRemoteAddHeights[arg(1).HtlcIndex]
+//@   site call restoreHtlc nth 1: assert arg(0) == lc.updateLogs.Local &&
+//@        arg(1).addCommitHeights.Remote == remoteCommitment.height &&
+//@        arg(1).addCommitHeights.Local == outgoingLocalAddHeights[arg(1).HtlcIndex]
+//@   site call restorePendingRemoteUpdates: assert arg(1) == unsignedAckedUpdates && arg(2) == localCommitment.height &&
+//@        arg(3) == pendingRemoteCommit
+//@   site call restorePeerLocalUpdates: assert arg(1) == remoteUnsignedLocalUpdates && arg(2) == remoteCommitment.height
+//@   site call restorePendingLocalUpdates: assert pendingRemoteCommit != nil && arg(1) == pendingRemoteCommitDiff && arg(2) == pendingRemoteKeys
+//@
+//@ func (lc *LightningChannel) restorePendingRemoteUpdates
+//@   props C02
+//@   loop * havoc
+//@   site store Dual.Remote: assert pendingRemoteCommit != nil && value == pendingRemoteCommit.height &&
+//@        retn(remoteLogUpdateToPayDesc, 0).LogIndex < pendingRemoteCommit.messageIndices.Remote
+//@   site call restoreUpdate: assert arg(0) == lc.updateLogs.Remote && arg(1) == retn(remoteLogUpdateToPayDesc, 0) &&
+//@        retn(remoteLogUpdateToPayDesc, 1) == nil && arg(1).LogIndex < lc.updateLogs.Remote.logIndex &&
+//@        ((pendingRemoteCommit != nil && arg(1).LogIndex < pendingRemoteCommit.messageIndices.Remote) ==>
+//@          arg(1).removeCommitHeights.Remote == pendingRemoteCommit.height)
+//@   site call markHtlcModified: assert arg(0) == lc.updateLogs.Local && arg(1) == retn(remoteLogUpdateToPayDesc, 0).ParentIndex
+//@   site call remoteLogUpdateToPayDesc: assert arg(2) == lc.updateLogs.Local && arg(3) == localCommitmentHeight
+//@
+//@ func (lc *LightningChannel) restorePeerLocalUpdates
+//@   props C02
+//@   loop * havoc
+//@   site call restoreUpdate: assert arg(0) == lc.updateLogs.Local && arg(1) == retn(localLogUpdateToPayDesc, 0) &&
+//@        retn(localLogUpdateToPayDesc, 1) == nil
+//@   site call markHtlcModified: assert arg(0) == lc.updateLogs.Remote && arg(1) == retn(localLogUpdateToPayDesc, 0).ParentIndex &&
+//@        retn(localLogUpdateToPayDesc, 0).EntryType != FeeUpdate
+//@   site call localLogUpdateToPayDesc: assert arg(2) == lc.updateLogs.Remote && arg(3) == remoteCommitmentHeight
